@@ -118,8 +118,10 @@ class Lexer:
         # /pattern/ or /pattern/flags
         self.re_pattern = r"/(?P<G_RE>.+?)/(?P<G_RE_FLAGS>[aims]*)"
 
-        # func(
-        self.function_pattern = r"(?P<G_FUNC>[a-z][a-z_0-9]+)\(\s*"
+        # func( - but not an operator keyword followed by a parenthesized expression
+        self.function_pattern = (
+            r"(?P<G_FUNC>(?!(?:and|or|not|in|contains)\()[a-z][a-z_0-9]+)\(\s*"
+        )
 
         self.rules = self.compile_rules()
 
